@@ -32,6 +32,7 @@ def plan(tier, seed):
 			tasks.append(('t_perms', dict(attr=attr, container=container, nmax=nmax)))
 	for attr in ('key', 'ncbi_id'):
 		tasks.append(('t_many', dict(attr=attr, n=1200 if tier == 'quick' else 5000)))
+	tasks.append(('t_two_sets', dict()))
 	tasks.append(('t_negative', dict()))
 	tasks.append(('t_dirs', dict()))
 	return tasks
@@ -215,6 +216,71 @@ def t_many(attr, n):
 	return sh
 
 
+def t_two_sets():
+	"""One genome file holding TWO genome sets that annotate overlapping genomes (different taxonomies): a database object built for one set must
+	contain exactly that set's annotated genomes, each paired with its own signature, for every id attribute and file order."""
+	from sqlalchemy import create_engine
+	from sqlalchemy.orm import sessionmaker
+	from gambit.db.models import Base, ReferenceGenomeSet, Taxon, Genome, AnnotatedGenome
+	from gambit.db import ReferenceDatabase
+	from gambit.db.sqla import file_sessionmaker
+	from gambit.sigs.base import load_signatures
+	sh = Shard()
+	ks = fixtures.kspec(5, 'AT')
+	members = {'A': [0, 1, 2], 'B': [1, 2, 3]}
+	with fixtures.workdir('c04t') as d:
+		path = os.path.join(d, 'two.gdb')
+		engine = create_engine(f'sqlite:///{path}')
+		Base.metadata.create_all(engine)
+		session = sessionmaker(engine)()
+		gspecs = genome_specs(4)
+		genomes = [Genome(key=g['key'], description=g['description'], ncbi_db=g['ncbi_db'], ncbi_id=g['ncbi_id'], genbank_acc=g['genbank_acc'], refseq_acc=g['refseq_acc']) for g in gspecs]
+		for name in ('A', 'B'):
+			gset = ReferenceGenomeSet(key='set/' + name, version='1', name='set ' + name)
+			tax = Taxon(key='t' + name, name='taxon of ' + name, distance_threshold=0.9 if name == 'A' else 0.1, genome_set=gset)
+			session.add_all([gset, tax])
+			for i in members[name]:
+				session.add(AnnotatedGenome(genome=genomes[i], genome_set=gset, taxon=tax, organism='in ' + name))
+		session.commit(); session.close(); engine.dispose()
+		for attr in ATTRS:
+			for order in ([0, 1, 2, 3], [3, 2, 1, 0], [2, 0, 3, 1]):
+				sp = os.path.join(d, 's.gs')
+				if os.path.exists(sp):
+					os.unlink(sp)
+				ids = [gspecs[i][attr] for i in order]
+				fixtures.write_sigfile(sp, ks, [SIGS[i] for i in order], ids=np.array(ids) if attr == 'ncbi_id' else ids, id_attr=attr)
+				for name in ('A', 'B'):
+					sess = file_sessionmaker(path)()
+					gset = sess.query(ReferenceGenomeSet).filter_by(key='set/' + name).one()
+					sigs = load_signatures(sp)
+					case = dict(attr=attr, two_sets=name, file_order=[str(x) for x in ids])
+					sh.evals += 1
+					try:
+						db = ReferenceDatabase(gset, sigs)
+						keys = sorted(g.key for g in db.genomes)
+						want = sorted(gspecs[i]['key'] for i in members[name])
+						foreign = [g.key for g in db.genomes if g.genome_set_id != gset.id or g.taxon.key != 't' + name]
+						ok = keys == want and not foreign
+						if ok:
+							fids = list(sigs.ids)
+							for g, si in zip(db.genomes, db.sig_indices):
+								gi = next(i for i, gs in enumerate(gspecs) if gs['key'] == g.key)
+								stored = fids[si].item() if isinstance(fids[si], np.generic) else fids[si]
+								if stored != gspecs[gi][attr] or np.asarray(sigs[si]).tolist() != sorted(SIGS[gi]):
+									ok = False
+						if not ok:
+							sh.violation('genomes-of-another-set', case, want, dict(keys=keys, foreign=foreign))
+						else:
+							sh.nontrivial += 1
+							sh.count('two_set_databases')
+					except Exception as e:
+						sh.violation('load-failed', case, 'loads', repr(e))
+					finally:
+						sigs.close(); sess.close(); sess.get_bind().dispose()
+	sh.sample(dict(family='two-sets', members=members))
+	return sh
+
+
 def t_negative():
 	from gambit.db import ReferenceDatabase
 	sh = Shard()
@@ -343,12 +409,15 @@ def finalize(agg, tier):
 	          'must_fail_genome_lacks_attribute', 'dirs_loading', 'dirs_refused'):
 		agg.require(c, 3)
 	agg.require('many_genome_databases', 2)
+	agg.require('two_set_databases', 12)
 
 
 def replay(case, kind=None):
 	from gambit.db import ReferenceDatabase
 	sh = Shard()
 	ks = fixtures.kspec(5, 'AT')
+	if 'two_sets' in case:
+		return [v for v in t_two_sets().violations if v['case'] == case][:1] or t_two_sets().violations[:1]
 	if 'many' in case:
 		return [v for v in t_many(case['attr'], case['many']).violations][:1]
 	if 'file_order' in case:
